@@ -234,9 +234,9 @@ func expandOps(ops []Op) []Op {
 		switch o.Tag {
 		case "X":
 			out = append(out, expandAttrs(o.Attrs)...)
-		case "O":
+		case "O", "S":
 			o2 := o
-			o2.Body = expandOps(o.Body)
+			o2.Pre, o2.Body, o2.Post = expandOps(o.Pre), expandOps(o.Body), expandOps(o.Post)
 			out = append(out, o2)
 		default:
 			out = append(out, o)
@@ -245,8 +245,23 @@ func expandOps(ops []Op) []Op {
 	return out
 }
 
+// probeSeq draws n uses in a row; a once render or a component call is, every other time, directly followed by a
+// self-closing call of a component with a children slot (the next component to look into the context's children).
+func probeSeq(r *rng.R, n int, depth int) []Op {
+	var l []Op
+	for ; n > 0; n-- {
+		o := probeOp(r, depth)
+		l = append(l, o)
+		if (o.Tag == "O" || o.Tag == "S") && r.Intn(2) == 0 {
+			cd := slotComps[r.Intn(3)]
+			l = append(l, Op{Tag: "S", Text: cd.name, Slot: cd.slot, Pre: cd.pre, Post: cd.post})
+		}
+	}
+	return l
+}
+
 func probeOp(r *rng.R, depth int) Op {
-	k := r.Intn(12)
+	k := r.Intn(16)
 	if r.Intn(5) == 0 {
 		attrs, path := probeSparse(r)
 		return Op{Tag: "X", Attrs: attrs, Text: "sparse:" + path}
@@ -261,7 +276,7 @@ func probeOp(r *rng.R, depth int) Op {
 	case k < 4:
 		s := probeScript(r)
 		return Op{Tag: "R", S: &s}
-	case k < 9 || depth <= 0:
+	case k < 8 || depth <= 0:
 		o := Op{Tag: "E"}
 		if r.Intn(4) != 0 {
 			for i := 1 + r.Intn(2); i > 0; i-- {
@@ -274,16 +289,39 @@ func probeOp(r *rng.R, depth int) Op {
 			}
 		}
 		return o
-	case k < 11:
+	case k < 10:
 		h := 1 + r.Intn(2)
 		o := Op{Tag: "O", H: h, Body: []Op{{Tag: "T", Text: fmt.Sprintf("[h%d]", h)}}}
-		for i := r.Intn(3); i > 0; i-- {
-			o.Body = append(o.Body, probeOp(r, depth-1))
+		o.Body = append(o.Body, probeSeq(r, r.Intn(3), depth-1)...)
+		return o
+	case k < 12:
+		return Op{Tag: "O", H: 3, Fixed: true, Body: fixedBody}
+	case k < 13:
+		// a handle without component, asked for by a self-closing call
+		return Op{Tag: "O", H: 1 + r.Intn(2), Self: true}
+	default:
+		// one of the declared components, self-closing or with a block
+		cd := slotComps[r.Intn(len(slotComps))]
+		o := Op{Tag: "S", Text: cd.name, Slot: cd.slot, Pre: cd.pre, Post: cd.post, Block: r.Intn(2) == 0}
+		if o.Block {
+			o.Body = probeSeq(r, 1+r.Intn(2), depth-1)
 		}
 		return o
-	default:
-		return Op{Tag: "O", H: 3, Fixed: true, Body: fixedBody}
 	}
+}
+
+// the components probe pages call: templ <name>() { pre { children... } post }, the last one without the slot
+type slotComp struct {
+	name      string
+	slot      bool
+	pre, post []Op
+}
+
+var slotComps = []slotComp{
+	{"card0", true, []Op{{Tag: "T", Text: "<p>"}}, []Op{{Tag: "T", Text: "</p>"}}},
+	{"card1", true, []Op{{Tag: "R", S: &Script{Name: "f2", Call: "a"}}}, []Op{{Tag: "E", Forms: []Form{{Tag: "d", C: &Cls{ID: "k3"}}}}}},
+	{"card2", true, nil, nil},
+	{"plain0", false, []Op{{Tag: "T", Text: "<b>"}}, []Op{{Tag: "T", Text: "</b>"}}},
 }
 
 // the component handle 3 is created with
@@ -442,9 +480,19 @@ func opsSrc(sb *strings.Builder, ops []Op, indent string) {
 				sb.WriteString(" " + handlerAttrs[i%len(handlerAttrs)] + "={ " + s.src() + " }")
 			}
 			sb.WriteString("></div>\n")
+		case "S":
+			if !o.Block {
+				sb.WriteString(indent + "@" + o.Text + "()\n")
+			} else {
+				sb.WriteString(indent + "@" + o.Text + "() {\n")
+				opsSrc(sb, o.Body, indent+"\t")
+				sb.WriteString(indent + "}\n")
+			}
 		case "O":
 			if o.Fixed {
 				sb.WriteString(indent + "@h3.Once()\n")
+			} else if o.Self {
+				sb.WriteString(fmt.Sprintf("%s@h%d.Once()\n", indent, o.H))
 			} else {
 				sb.WriteString(fmt.Sprintf("%s@h%d.Once() {\n", indent, o.H))
 				opsSrc(sb, o.Body, indent+"\t")
@@ -517,6 +565,7 @@ func substOps(d *probeDump, ops []Op) []Op {
 			p.Forms = append(p.Forms, substForm(d, f))
 		}
 		p.Body = substOps(d, o.Body)
+		p.Pre, p.Post = substOps(d, o.Pre), substOps(d, o.Post)
 		out = append(out, p)
 	}
 	return out
@@ -590,12 +639,26 @@ func probes(c *core.Ctx) {
 	src.WriteString("templ h3body() {\n")
 	opsSrc(&src, fixedBody, "\t")
 	src.WriteString("}\n\n")
-	for i := 0; i < n; i++ {
-		var ops []Op
-		for k := 1 + r.Intn(6); k > 0; k-- {
-			ops = append(ops, probeOp(r, 2))
+	for _, cd := range slotComps {
+		src.WriteString("templ " + cd.name + "() {\n")
+		opsSrc(&src, cd.pre, "\t")
+		if cd.slot {
+			src.WriteString("\t{ children... }\n")
 		}
+		opsSrc(&src, cd.post, "\t")
+		src.WriteString("}\n\n")
+	}
+	for i := 0; i < n; i++ {
+		ops := probeSeq(r, 1+r.Intn(6), 2)
 		srcStart := src.Len()
+		var all Hist
+		all.Cfgs = []Cfg{{}}
+		for _, o := range ops {
+			all.Ops = append(all.Ops, COp{0, o})
+		}
+		for _, s := range slotSituations(all) {
+			c.Hist("probe: " + s)
+		}
 		for _, o := range ops {
 			if o.Tag == "X" && strings.HasPrefix(o.Text, "sparse:") {
 				c.Hist("probe: element whose only expression attributes sit at branch path \"" + o.Text[len("sparse:"):] + "\" among constants")
